@@ -15,6 +15,19 @@ package clients
 //@   ensures [regex-last] forall(i, 0, len(commands), hasSuffix(commands[i], " regex:" + flagName(c.baseClient.Regex.flags[0]) + " " + c.baseClient.Regex.regexStr))
 //@   loop 1 invariant [regex-last] forall(i, 0, len(commands), hasSuffix(commands[i], " regex:" + flagName(c.baseClient.Regex.flags[0]) + " " + c.baseClient.Regex.regexStr)) && regex == "regex:" + flagName(c.baseClient.Regex.flags[0]) + " " + c.baseClient.Regex.regexStr
 
+//@ func (TailClient).makeCommands
+//@   requires [regex] c.baseClient.Regex.initialized && len(c.baseClient.Regex.flags) == 1
+//@   ensures [regex-last] forall(i, 0, len(commands), hasSuffix(commands[i], " regex:" + flagName(c.baseClient.Regex.flags[0]) + " " + c.baseClient.Regex.regexStr))
+//@   loop 1 invariant [regex-last] forall(i, 0, len(commands), hasSuffix(commands[i], " regex:" + flagName(c.baseClient.Regex.flags[0]) + " " + c.baseClient.Regex.regexStr)) && regex == "regex:" + flagName(c.baseClient.Regex.flags[0]) + " " + c.baseClient.Regex.regexStr
+// The mapreduce client sends the query first ("map <query>", verbatim) and then
+// one read command per file, each ending in the serialised regex.
+//@ func (MaprClient).makeCommands
+//@   requires [regex] c.baseClient.Regex.initialized && len(c.baseClient.Regex.flags) == 1 && c.query != nil
+//@   ensures [query-first-verbatim] len(commands) >= 1 && commands[0] == "map " + c.query.RawQuery
+//@   ensures [regex-last] forall(i, 1, len(commands), hasSuffix(commands[i], " regex:" + flagName(c.baseClient.Regex.flags[0]) + " " + c.baseClient.Regex.regexStr))
+//@   loop 1 invariant [query-first-verbatim] len(commands) >= 1 && commands[0] == "map " + c.query.RawQuery
+//@   loop 1 invariant [regex-last] forall(i, 1, len(commands), hasSuffix(commands[i], " regex:" + flagName(c.baseClient.Regex.flags[0]) + " " + c.baseClient.Regex.regexStr))
+
 // The client's regex object: '', '.', '.*' become the noop regex, otherwise the
 // default or (with --invert) the invert flag and the pattern as given.
 //@ func (*baseClient).init
